@@ -211,7 +211,7 @@ func runC16(r *Run, rng *Rng, thorough bool) {
 			pool = append(pool, LenProfile{c16Names(i), rng.Intn(6)})
 		}
 		// candidates that must fail: builtin names, the default entry's name
-		pool = append(pool, LenProfile{psa.Profile1Name, 0}, LenProfile{psa.Profile2Name, 1})
+		pool = append(pool, LenProfile{psa.Profile1Name, 0}, LenProfile{psa.Profile2Name, 1}, LenProfile{"", rng.Intn(5)})
 		names := []string{psa.Profile1Name, psa.Profile2Name, "", "PSA_IOT_PROFILE_2"}
 		for i := 0; i < nExtra; i++ {
 			names = append(names, c16Names(i))
@@ -240,7 +240,7 @@ func runC16(r *Run, rng *Rng, thorough bool) {
 					protos = append(protos, p.proto())
 					results = append(results, okErr(err))
 					_, dup := registered[p.Name]
-					builtin := p.Name == psa.Profile1Name || p.Name == psa.Profile2Name
+					builtin := p.Name == psa.Profile1Name || p.Name == psa.Profile2Name || p.Name == "" // "" is the default entry
 					wantErr := dup || builtin || p.Kind == 5
 					if (err != nil) != wantErr {
 						fail("register-outcome", fmt.Sprintf("RegisterProfile(%q, kind %d): err=%v, expected failure=%v", p.Name, p.Kind, err, wantErr))
